@@ -1520,6 +1520,34 @@ pub fn parse_string(input: &str) -> Result<Program, Error> {
     Program::parse(pairs.into_iter().next().unwrap())
 }
 
+/// Verification hook: the pair tree pest yields for `input` as an s-expression of
+/// `(rule start end children…)`, or the parse error. Compiled only with `--cfg tx3_verif`.
+#[cfg(tx3_verif)]
+pub fn verif_pair_tree(input: &str) -> Result<String, Error> {
+    fn dump(pair: Pair<Rule>, out: &mut String) {
+        let span = pair.as_span();
+        out.push_str(&format!(
+            "({:?} {} {}",
+            pair.as_rule(),
+            span.start(),
+            span.end()
+        ));
+        for inner in pair.into_inner() {
+            out.push(' ');
+            dump(inner, out);
+        }
+        out.push(')');
+    }
+
+    let pairs =
+        Tx3Grammar::parse(Rule::program, input).map_err(|e| Error::from_pest(e, input))?;
+    let mut out = String::new();
+    for pair in pairs {
+        dump(pair, &mut out);
+    }
+    Ok(out)
+}
+
 #[cfg(test)]
 pub fn parse_well_known_example(example: &str) -> Program {
     let manifest_dir = env!("CARGO_MANIFEST_DIR");
